@@ -3,7 +3,7 @@
 import json
 import re
 from ..mir import call_matches, callee_name, op_local, op_const_int, place_str
-from ..flow import resolve_place, arg_place, origins, value_variants, ok_return_blocks, err_return_blocks, feasible_reach, expr, place_expr
+from ..flow import resolve_place, arg_place, origins, value_variants, ok_return_blocks, err_return_blocks, feasible_reach, expr, place_expr, promoted_aggs
 
 CLAIM = {
     "text": "Static necessary conditions of the diffing protocol decided on MIR for every path of TerminalRenderer::{new,clear,frame} and "
@@ -334,7 +334,7 @@ def run(ctx):
     loops = fcfg.loops()
     eqs = []
     for bb, t in frame.calls():
-        if call_matches(t, r"PartialEq.*::(eq|ne)$") and all(re.search(r"render::Cell$", x) for x in t["arg_tys"]):
+        if call_matches(t, r"PartialEq.*::(eq|ne)$") and all(_T_CELLISH.search(x) for x in t["arg_tys"]):
             # exclude comparisons of two cells of the front buffer (run-length scan)
             srcs = []
             for a in t["args"]:
@@ -682,6 +682,55 @@ def run(ctx):
         ctx.instance("R7-RUN", {"scan_eq_line": t["line"], "increments": [s2["line"] for i2, s2 in incs], "guarded_by_equal_and_not_ignored": ok})
         if not ok:
             ctx.violation("R7-RUN", frame.path, "run-includes-ignored", "blank-run coalescing: %s; EraseChars/spaces would overwrite cells under an image that is kept" % why, sites=["%s:%d" % (frame.file, t["line"])])
+    # the same scan written as an iterator chain: the comparison of two front-buffer cells lives in a closure handed to an adaptor
+    # (`cols.take_while(|p| front.get(p) == Some(new) && marks.get(p) != Some(&Ignored)).count()`, `position(|p| !(..))`, a counting fold ..).
+    # The closure is evaluated twice, once assuming the scanned cell's mark is Ignored and once assuming the two cells differ: in neither
+    # case may it accept the cell (bool closure: return the accepting value of its adaptor; otherwise: reach an increment by one).
+    for cb, caps in _closures_x(prog, frame):
+        cmps = []
+        for bb, t in cb.calls():
+            if call_matches(t, r"PartialEq.*::(eq|ne)$") and len(t["args"]) == 2 and all(_T_CELLISH.search(x) for x in t["arg_tys"]):
+                es = [_cap_subst(expr(cb, a), caps) for a in t["args"]]
+                if all("arg1.front" in e and "arg1.back" not in e for e in es):
+                    cmps.append((bb, t))
+        if not cmps:
+            continue
+        n_run += 1
+        marks_recv = {pl for k, e in caps.items() if e == "arg1.marks" for pl in ("(*(*_1).%d)" % k, "(*_1).%d" % k, "(*(*(*_1).%d))" % k)}
+        init = {l: "M" for l in range(2, cb.arg_count + 1) if _T_MARK.match(cb.local_ty(l) or "")}
+        site = _closure_site(frame, cb)
+        adaptor = (callee_name(site[1]) or "").split("::")[-1] if site else None
+        is_pred = cb.local_ty(0) == "bool"
+        accept = None
+        if is_pred and adaptor in ("take_while", "all", "filter", "skip_while"):
+            accept = 1
+        elif is_pred and adaptor in ("position", "find", "any", "rposition"):
+            accept = 0
+        incs = [(i2, s2) for i2, si2, s2 in cb.assigns() if s2["rv"]["k"] == "bin" and s2["rv"]["op"] in ("AddWithOverflow", "Add")
+                and "1" in (expr(cb, s2["rv"]["a"]), expr(cb, s2["rv"]["b"]))]
+        if accept is None and not incs:
+            ctx.anchor("R7-RUN", "run-length-scan-consumer", "cells of the front buffer are compared in %s but how the result is counted is not understood (adaptor %s)" % (cb.path, adaptor))
+            continue
+        ok, why = True, ""
+        for what, ev in (("a `mark != Ignored` test of the next cell", CellEval(cb, prog, mark=IGNORED, init=init, marks_recv=marks_recv)),
+                         ("the equal-cell test", CellEval(cb, prog, init=init, marks_recv=marks_recv,
+                                                          forced={bb: (0 if (callee_name(t) or "").endswith("::eq") else 1) for bb, t in cmps}))):
+            fr = ev.reach(0)
+            if fr is None:
+                ok, why = False, "path enumeration gave up"
+                continue
+            if accept is not None:
+                rets = _return_values(ev, cb, fr)
+                if not rets or not all(r == ("c", 1 - accept) for r in rets):
+                    ok, why = False, "the cell is accepted into the run (closure handed to %s) without %s" % (adaptor, what)
+            for i2, s2 in incs:
+                if i2 in fr:
+                    ok, why = False, "the run counter is incremented (line %d) without %s" % (s2["line"], what)
+        ctx.instance("R7-RUN", {"scan_closure": cb.path.split("::")[-1], "adaptor": adaptor, "accepting_value": accept, "increments": [s2["line"] for i2, s2 in incs],
+                                "guarded_by_equal_and_not_ignored": ok})
+        if not ok:
+            ctx.violation("R7-RUN", frame.path, "run-includes-ignored", "blank-run coalescing: %s; EraseChars/spaces would overwrite cells under an image that is kept" % why,
+                          sites=["%s:%d" % (frame.file, cmps[0][1]["line"])])
     if n_run == 0:
         ctx.anchor("R7-RUN", "run-length-scan")
 
@@ -725,12 +774,69 @@ def _calls_x(body):
                        "line": t.get("line", 0), "t": t["t"], "inl": True}
 
 
+def _closures_x(prog, body):
+    """closures built in a (possibly inlined) body, with their captures in the body's vocabulary: [(closure body, {k: canonical term of capture k})]"""
+    out = []
+    for i, si, s in body.assigns():
+        rv = s["rv"]
+        if rv["k"] == "agg" and rv.get("ak") == "closure" and not body.blocks[i]["cleanup"]:
+            cb = prog.body(rv["def"])
+            if cb is not None and all(cb is not c for c, _ in out):
+                out.append((cb, {k: expr(body, f) for k, f in enumerate(rv["fields"])}))
+    return out
+
+
+def _cap_subst(e, caps):
+    """a canonical term of a closure body with its captures (`arg1.<k>`) replaced by what the parent captured"""
+    return re.sub(r"\barg1\.(\d+)\b", lambda m: caps.get(int(m.group(1)), m.group(0)), e)
+
+
+def _closure_site(parent, cb):
+    """(block, call) of `parent` that consumes closure `cb` as a non-receiver argument"""
+    name = re.escape(cb.path.split("::")[-1])
+    for bb, t in parent.calls():
+        for k, a in enumerate(t["args"]):
+            if k > 0 and re.match(r"closure:%s\[" % name, expr(parent, a)):
+                return bb, t, k
+    return None
+
+
+def _return_values(ev, cb, fr):
+    """values of the return place at every return reached by the walk `fr` of evaluator `ev` (None = unknown)"""
+    rets = []
+    for rb, envs in fr.items():
+        if cb.blocks[rb]["term"]["k"] == "return":
+            for env in envs:
+                env = dict(env)
+                ev._step(env, rb)
+                rets.append(env.get(0))
+    return rets
+
+
 # ---- path-sensitive reading of the diff loops under an assumption about the cell being examined ---------------------------------
+_T_CELLISH = re.compile(r"^(&(mut )?)*(std::option::Option<(&(mut )?)*render::Cell>|render::Cell)$")
 _T_MARK = re.compile(r"^(&(mut )?)*render::CellMark$")
 _T_OMARK = re.compile(r"^(&(mut )?)*std::option::Option<(&(mut )?)*render::CellMark>$")
 _T_MARKS = re.compile(r"^&(mut )?\[render::CellMark\]$")
 _PURE_TESTS = r"PartialEq.*::(eq|ne)$|^surface::Surface::(get|data|shape|width|height)$|Surface>::(get|data|shape|width|height)$|^surface::Shape::offset$|" \
               r"Option::<T>::(copied|cloned|unwrap_or|unwrap_or_default|is_some|is_none|as_ref|as_deref)$|Option::<&T>::(copied|cloned)$|Option::<&mut T>::(copied|cloned)$"
+
+
+class _Tup:
+    """value of a tuple local in CellEval: the values of its fields (`match (front.get(p), marks.get(p)) { .. }`)"""
+    __slots__ = ("vs",)
+
+    def __init__(self, vs):
+        self.vs = tuple(vs)
+
+    def __eq__(self, o):
+        return isinstance(o, _Tup) and o.vs == self.vs
+
+    def __hash__(self):
+        return hash(("T", self.vs))
+
+    def __repr__(self):
+        return "T%r" % (self.vs,)
 
 
 class CellEval:
@@ -740,8 +846,10 @@ class CellEval:
     Environment values: ('c', n) known integer/bool, 'M' (the mark, or a reference to it), 'OM' (Some(&mark) / Some(mark)), 'W' (the width).
     Branches whose discriminant is known are followed on the matching edge only (like sa.flow.feasible_reach, which knows constants only)."""
 
-    def __init__(self, body, prog, mark=None, wide=False, allowed=None, init=None):
+    def __init__(self, body, prog, mark=None, wide=False, allowed=None, init=None, forced=None, marks_recv=()):
         self.b, self.prog, self.mark, self.wide = body, prog, mark, wide
+        self.forced = dict(forced or {})          # {block of a call: value its result is assumed to have}
+        self.marks_recv = set(marks_recv)         # places that denote the marks surface besides `<..>.marks` (captures of a closure)
         self.allowed = allowed or (lambda bb: True)
         self.init = dict(init or {})
         ev = prog.enum_variants("render::CellMark") or []
@@ -759,6 +867,10 @@ class CellEval:
     def _place_val(self, env, p):
         v = env.get(p["l"])
         proj = [e for e in p["p"] if e["k"] != "deref"]
+        while proj and isinstance(v, _Tup) and proj[0]["k"] == "field":
+            nm = str(proj[0].get("name"))
+            v = v.vs[int(nm)] if nm.isdigit() and int(nm) < len(v.vs) else None
+            proj = proj[1:]
         if not proj:
             return v
         if v == "OM" and len(proj) == 2 and proj[0]["k"] == "downcast" and proj[0]["variant"] == "Some" and proj[1]["k"] == "field":
@@ -768,6 +880,7 @@ class CellEval:
         return None
 
     def _variants(self, op):
+        # promoted constants of expanded helpers are renumbered into the root's table by sa.inline
         vs = value_variants(self.b, op)
         return {v for v in vs if isinstance(v, str)}
 
@@ -803,8 +916,11 @@ class CellEval:
                 val = "NC"       # the new cell's character: wider than one column, hence not below U+1100
         elif k in ("ref", "rawptr"):
             val = self._place_val(env, rv["place"]) if (self.allowed(bb) or not any(e["k"] == "index" for e in rv["place"]["p"])) else None
-            if val not in ("M", "OM"):
+            if val not in ("M", "OM") and not isinstance(val, _Tup):
                 val = None
+        elif k == "agg" and rv.get("ak") == "tuple" and rv["fields"]:
+            vs = [self._val(env, f) for f in rv["fields"]]
+            val = _Tup(vs) if any(v is not None for v in vs) else None
         elif k == "agg" and rv.get("ak") == "adt" and rv.get("adt") == "std::result::Result":
             val = "OKR" if rv.get("variant") == "Ok" else "ERRR"
         elif k == "discr":
@@ -876,7 +992,9 @@ class CellEval:
         l, val = d["l"], None
         ty = self.b.local_ty(l) or ""
         nm = callee_name(t) or ""
-        if call_matches(t, r"FromResidual.*::from_residual$"):
+        if bb in self.forced:
+            val = ("c", self.forced[bb])
+        elif call_matches(t, r"FromResidual.*::from_residual$"):
             val = "ERRR"
         elif call_matches(t, r"Try>?::branch$") and t["args"] and self._val(env, t["args"][0]) in ("OKR", "ERRR"):
             val = "CONT" if self._val(env, t["args"][0]) == "OKR" else "BRK"
@@ -885,7 +1003,7 @@ class CellEval:
             if r is not None:
                 val = ("c", r if nm.endswith("::eq") else 1 - r)
         elif self.mark is not None and self.allowed(bb) and _T_OMARK.match(ty) and (
-                (call_matches(t, r"^surface::Surface::get$|Surface>::get$|^surface::SurfaceMut::get_mut$|SurfaceMut>::get_mut$") and (arg_place(self.b, t, 0) or "").endswith(".marks"))
+                (call_matches(t, r"^surface::Surface::get$|Surface>::get$|^surface::SurfaceMut::get_mut$|SurfaceMut>::get_mut$") and ((arg_place(self.b, t, 0) or "").endswith(".marks") or arg_place(self.b, t, 0) in self.marks_recv))
                 or call_matches(t, r"Iterator>?::(next|next_back)$")):
             val = "OM"
         elif call_matches(t, r"Option::<.*>::(copied|cloned|as_ref|as_deref|as_mut)$") and t["args"]:
